@@ -406,7 +406,7 @@ def pre(tier):
         if rc is None:
             out.append(dict(name="c16.overlay.native: " + names[n], ok=False, undecided=True, engine="gcc", detail=txt))
         else:
-            out.append(dict(name="c16.overlay.native: " + names[n] + " (size and alignment, gcc _Static_assert)", ok=(rc == 0), engine="gcc",
+            out.append(dict(name="c16.overlay.native: " + names[n] + (" (size and alignment)" if n <= 7 else "") + " [gcc _Static_assert]", ok=(rc == 0), engine="gcc",
                             detail="gcc _Static_assert on the real headers" if rc == 0 else txt))
     d = tempfile.mkdtemp(prefix="c16_")
     try:
@@ -420,6 +420,26 @@ def pre(tier):
                             ok=(p.returncode == 0), engine="gcc+run", detail=(p.stdout + p.stderr)[-300:]))
     except Exception as e:
         out.append(dict(name="c16.overlay.native: static initialisers", ok=False, undecided=True, engine="gcc", detail=repr(e)))
+    finally:
+        shutil.rmtree(d, ignore_errors=True)
+    # the preload variant (-DMYTH_WRAP=MYTH_WRAP_DL) is the link-time variant with the prefix __wrap_ removed, token for token:
+    # what is proved about __wrap_<name> (LD, the variant goto-cc accepts) holds for <name> (DL)
+    d = tempfile.mkdtemp(prefix="c16_")
+    try:
+        txt = {}
+        for v in ("LD", "DL"):
+            o = _os.path.join(d, v + ".i")
+            cmd = ["gcc", "-E", "-P"] + inc + ["-I" + _os.path.join(vf.REPO, "src", "profiler")] + [f for f in vf.CPPFLAGS if not f.startswith("-DMYTH_WRAP=")] + [
+                   "-DMYTH_WRAP=MYTH_WRAP_" + v, _os.path.join(vf.REPO, "src", "myth_wrap_pthread.c"), "-o", o]
+            p = subprocess.run(cmd, capture_output=True, text=True, timeout=60)
+            if p.returncode != 0:
+                raise RuntimeError("gcc -E (%s) failed: %s" % (v, p.stderr[-300:]))
+            txt[v] = open(o).read()
+        same = txt["LD"].replace("__wrap_", "") == txt["DL"] and "__wrap_" in txt["LD"]
+        out.append(dict(name="c16.variants: the preloading build of myth_wrap_pthread.c is the link-time-wrapping build with the prefix __wrap_ removed (gcc -E -P, token for token)",
+                        ok=same, engine="gcc -E", detail="identical after removing the prefix" if same else "the two variants differ in more than the entry-point names"))
+    except Exception as e:
+        out.append(dict(name="c16.variants", ok=False, undecided=True, engine="gcc -E", detail=repr(e)))
     finally:
         shutil.rmtree(d, ignore_errors=True)
     # the wrapper list of the real source against the table the harnesses were generated from
@@ -443,11 +463,56 @@ def pre(tier):
     return out
 
 
+# Mutation self-test (selftest/C16): conv_plain_store_election, conv_return_without_waiting, conv_publish_before_init,
+# conv_elect_while_initializing, attr_custom_data_uninitialised (F2 re-introduced), lock_without_conversion, switch_inverted,
+# barrier_serial_untranslated.  Also tried and CAUGHT, not kept (limit of 8): conversion forgets to reset `state`, detach state
+# not copied, errorcheck/recursive swapped, pthread_tryjoin_np -> myth_join_body, pthread_cond_timedwait -> myth_cond_wait_body.
 META = {
  "level": "other",
- "level_text": "adapter contracts",
- "level_note": "",
- "trusted_base": [],
- "explanation": "",
- "assumptions": [],
+ "level_text": "Adapter layer only. Contracts on the real text of src/myth_wrap_pthread.c (link-time-wrapping build; the preloading build is "
+               "shown token-identical up to the entry-point prefix): attribute translation total and fully initialising; conversion of a "
+               "statically initialised mutex under rely/guarantee on the word `magic` (one converter, everybody returns only after "
+               "magic == myth_mutex_magic_no, fields initialised before publication, a converted mutex untouched; waiting loop closed by "
+               "a loop contract); for each of the 38 mode-switching and 38 attribute-object entry points of the supported subset a "
+               "generated forwarding obligation (exactly the corresponding myth_*_body / system function, once, translated arguments, "
+               "its return value; both settings of MYTH_WRAP_PTHREAD); native compile-time lemmas for every overlaid type and static "
+               "initialiser. POSIX key-destructor semantics at thread exit are encoded (bounded jobs) and FAIL on the pinned tree (E1, E2).",
+ "level_note": "Program-level equivalence with the system library (the differential oracle of the property) is NOT decided: glibc has no "
+               "specification to check against; what is proved is that the adapter hands every call of the subset to the MassiveThreads "
+               "primitive whose contract is the subject of C01/C04-C06/C10/C11/C13/C14/C20, with correctly translated arguments. "
+               "dlsym/--wrap symbol resolution (src/myth_real.c) is not analysed. Trusted: cbmc 6.11, gcc, SC interleaving, the stubs listed.",
+ "trusted_base": ["cbmc 6.11.0 (goto-cc, goto-instrument --replace-calls / --dfcc with loop contracts, SAT back end)",
+                  "gcc (-E of the real sources; native _Static_assert lemmas; one native run for the static initialisers)",
+                  "rely/guarantee rule (paper step from the per-function obligations + lemmas to 'exactly one thread converts')",
+                  "the forwarding table FW/PASS in units/c16.py (the specification: which body stands for which entry point)"],
+ "explanation": "c16_adapter.c: pthread_attr_to_myth / pthread_mutexattr_to_myth / pthread_mutex_type_to_myth / cond+barrier attr translation "
+                "against ghost attribute objects (buffer pre-filled with arbitrary bytes); myth_should_wrap_pthread against a ghost environment; "
+                "myth_handle_PTHREAD_MUTEX_INITIALIZER with an environment step before its CAS, a loop contract on the waiting loop and a "
+                "contract on myth_rwbarrier that requires the completely initialised, still-marked-initializing mutex. c16_forward_gen.c "
+                "(generated by units/c16.py): one case per wrapper, bodies and system functions replaced by recording stubs. "
+                "c16_keys.c: destructor decision at leaf level + key deletion against POSIX. c16_overlay_native.c + pre(): native lemmas.",
+ "assumptions": [
+   "build variant: -DMYTH_WRAP=MYTH_WRAP_LD (entry points __wrap_<name>); the MYTH_WRAP_DL build defines the system's own names, which goto-cc cannot "
+   "tell from the declarations/models of <pthread.h>; pre() shows the two preprocessed units identical up to the prefix",
+   "pthread attribute objects are opaque: their content is a ghost (detach state, stack address/size, mutex type); the system getters "
+   "pthread_attr_getdetachstate / pthread_attr_getstack / pthread_mutexattr_gettype are stubs over that ghost that always return 0 (glibc's do)",
+   "myth_globalattr_get_stacksize/guardsize/child_first_body are stubs returning ghost defaults (their bodies: C15)",
+   "getenv / atoi are stubs over a ghost environment (MYTH_WRAP_PTHREAD, MYTH_TRACE_WRAPPED_FUNC arbitrary); fprintf / vfprintf are body-less",
+   "forwarding jobs: every myth_*_body, the four pthread_*attr_to_myth translations and myth_handle_PTHREAD_MUTEX_INITIALIZER are replaced (--replace-calls) "
+   "by recording stubs; every real_* function (src/myth_real.c) is a recording stub; what the bodies do is the subject of the other properties",
+   "myth_barrier_wait_body returns 0 or MYTH_BARRIER_SERIAL_THREAD (assumed contract, C06): otherwise the wrapper's assert(ret == 0) is reachable",
+   "forwarding job 'thread': call tracing (MYTH_TRACE_WRAPPED_FUNC) assumed off, because enter_wrapped_func(0) / leave_wrapped_func(0) pass the int 0 where the "
+   "tracing code reads a const char * through va_arg (undefined by the C standard, reads as NULL on x86-64); the other families are checked with tracing on and off",
+   "--conversion-check is off in the forwarding jobs: `int ret = myth_sleep_body(s)` / `leave_wrapped_func(\"%d\", ret)` convert unsigned to int and back (modular with gcc)",
+   "conversion: sequentially consistent interleaving of atomic steps on `magic`; interference is modelled before the first read (arbitrary initial state), "
+   "before the CAS, and at every iteration of the waiting loop; the converter's struct store and final store are its own (nobody else writes a mutex marked initializing)",
+   "conversion: an unconverted mutex is not written by anybody except through the election (a program does not use a static mutex before its first lock); "
+   "termination of the waiting loop (the converter completes) is liveness and not decided",
+   "conversion: the program's pthread_mutex_t storage is modelled as an object of type myth_mutex_t (the adapter casts the pointer at once and never uses the union type)",
+   "pthread_mutex_unlock need not convert (an unlock cannot be the first use); pthread_cond_wait/timedwait take an already locked, hence converted, mutex",
+   "keys jobs are BOUNDED: leaf index fixed per job (0 and 63); destructor decision at leaf level only (the walk is C11's); "
+   "repetition of destructor rounds (PTHREAD_DESTRUCTOR_ITERATIONS) is not modelled",
+   "not decided: program-level equivalence with glibc, dlsym/--wrap resolution (myth_real.c), that libmyth-dl.so exports the names, "
+   "wrappers outside the supported subset (scheduling, cancellation, signals, affinity, names, robust mutexes: list OUTSIDE in units/c16.py)",
+ ],
 }
